@@ -45,11 +45,24 @@ type Result struct {
 
 // Run executes gotree with the given arguments in dir (a scratch directory), feeding stdin.
 func Run(dir string, stdin string, args ...string) Result {
+	return run(dir, &stdin, args...)
+}
+
+// RunNoStdin executes gotree with its standard input connected to the null device (a character
+// device, as a terminal is - not a pipe): what a command started from a script without
+// redirection, or by a service, sees.
+func RunNoStdin(dir string, args ...string) Result {
+	return run(dir, nil, args...)
+}
+
+func run(dir string, stdin *string, args ...string) Result {
 	ctx, cancel := context.WithTimeout(context.Background(), 60*time.Second)
 	defer cancel()
 	cmd := exec.CommandContext(ctx, Bin(), args...)
 	cmd.Dir = dir
-	cmd.Stdin = strings.NewReader(stdin)
+	if stdin != nil {
+		cmd.Stdin = strings.NewReader(*stdin)
+	}
 	var so, se bytes.Buffer
 	cmd.Stdout, cmd.Stderr = &so, &se
 	err := cmd.Run()
